@@ -408,6 +408,13 @@ def run (ctx):
     hs = ng.handlers_for(n)
     catch_all = [h for h in hs if h.ast.type is None or norm(h.ast.type) in ('BaseException', 'Exception')]
     good = bool(catch_all) and not ng.raises_out(n)
+    if good:
+      # ... whatever it is: a handler may fail with something that is not an Exception (sys.exit() in a handler, KeyboardInterrupt while it
+      # runs, GeneratorExit); `except Exception:` lets those through to the raiser
+      total = [h for h in hs if h.ast.type is None or norm(h.ast.type) == 'BaseException']
+      ctx.ob('R-CONTAIN', rne, "no failure of a handler reaches the raiser - not only Exception subclasses", bool(total), "bare except / BaseException" if total else
+             "the widest handler around the suppressed raise is `except %s`: a handler that fails with SystemExit, KeyboardInterrupt or another BaseException propagates to the code that raised the event with error suppression (the hook is not called, None is not returned)"
+             % norm(catch_all[0].ast.type), (mod, catch_all[0].ast), 'D6')
     ctx.ob('R-CONTAIN', rne, "handler exceptions never reach the raiser", good, "raiseEvent inside try with a catch-all handler" if good else
            "raiseEvent is not enclosed by a catch-all handler (%s): a handler's exception propagates to the code that raised the event" % [norm(h.ast.type) for h in hs if h.ast.type is not None], (mod, n.ast), 'D6')
     rer = [h for h in hs if h.ast.type is not None and norm(h.ast.type) == 'ReventError']
